@@ -551,5 +551,54 @@ def r17_7(ctx):
     return r
 
 
+def r17_8(ctx):
+    """close_with_reason - the body of close() and of Drop - starts with `if peer_state == Closed { return }`: the
+    published state Closed is its record that the teardown (stop ICE, close DTLS/SCTP, abort tasks, BYE) has run.
+    Whoever else publishes PeerConnectionState::Closed turns the application's later close() / drop into a no-op:
+    sockets, tasks and the signaling state stay as they were. Allowed publishers: close_with_reason itself, and the
+    loops that merely mirror an ICE transport that IS closed (only stop() closes it)."""
+    r = RuleResult("R17.8", "K3+K1", "PeerConnectionState::Closed is published only by the teardown itself (or as the mirror of a stopped ICE transport)")
+    n = 0
+    for b in ctx.facts.all_bodies():
+        if "::tests::" in b.name or not b.name.lstrip("<").startswith("peer_connection::"):
+            continue
+        sites = []
+        for bi, t, p in b.calls():
+            if p and "watch::Sender" in p and p.split("::")[-1] in ("send", "send_replace", "send_if_modified", "send_modify") and t["a"]:
+                if not mir.has_field(b.term_operand(t["a"][0]), "peer_state"):
+                    continue
+                v = b.term_operand(t["a"][1]) if len(t["a"]) > 1 else None
+                # the possible values: a literal state, or a local all of whose definitions are literal states
+                alts = [v] if v is not None else []
+                if v is not None and v[0] == "var" and len(v) > 2:
+                    alts = b.var_def_terms(v[2]) or [v]
+                elif v is not None and v[0] == "phi" and isinstance(v[1], tuple):
+                    alts = list(v[1])
+                states = {x[2] for a in alts for x in mir.walk(a) if x[0] == "agg" and x[1].endswith("PeerConnectionState")}
+                # a value that is not (a choice of) literal states - a mapping, a parameter - may be Closed as well
+                literal = bool(alts) and all(a[0] == "agg" and a[1].endswith("PeerConnectionState") for a in alts)
+                if "Closed" in states or not literal:
+                    sites.append((bi, states, literal))
+        if not sites:
+            continue
+
+        def ice_closed(term, meaning, *_):
+            return term[0] == "discr" and term[2].endswith("IceTransportState") and meaning == "Closed"
+        g = core.guard_edges(b, ice_closed)
+        for bi, states, literal in sites:
+            n += 1
+            if b.name.endswith("PeerConnectionInner::close_with_reason"):
+                r.ok({"site": b.where(bi), "publisher": "the teardown itself"})
+            elif literal and g and core.k1(b, [bi], g, fresh_per_iteration=True)[bi] is None:
+                r.ok({"site": b.where(bi), "publisher": b.name.split("::")[1], "cut_by": "ICE transport state == Closed"})
+            else:
+                r.violate(b.name, "publish:Closed", b.where(bi),
+                          "PeerConnectionState::Closed %s published outside the teardown: close_with_reason returns early once the state is "
+                          "Closed, so a later close() / drop releases nothing (ICE, DTLS, tasks and signaling state stay up)"
+                          % ("is" if literal else "may be (non-literal state value)"))
+    r.need("publications of PeerConnectionState::Closed", n, 3)
+    return r
+
+
 def run(ctx):
-    return [r17_1(ctx), r17_2(ctx), r17_3(ctx), r17_4(ctx), r17_5(ctx), r17_6(ctx), r17_7(ctx)]
+    return [r17_1(ctx), r17_2(ctx), r17_3(ctx), r17_4(ctx), r17_5(ctx), r17_6(ctx), r17_7(ctx), r17_8(ctx)]
